@@ -320,7 +320,9 @@ Theorem trim_keeps_untrimmed_columns :
 Proof. exact sink_slow_c_layout. Qed.
 Print Assumptions trim_keeps_untrimmed_columns.
 
-(* Findings, proved on the model and replayed on rg (notes/C09.md):
+(* Observations OUTSIDE property C09 (its text excludes trimming and column limits): the three `_refuted`
+   theorems below refute a *reading of the documentation* of --max-columns / --trim / --vimgrep, not C09; they
+   are proved on the model and replayed on rg (notes/C09.md, "Observations outside the property").
    (a) the limit counts the line's own terminator: the 3-byte line "abc\n" is omitted under -M 3
        (the same line without final newline is printed) *)
 Definition ex_gends (b : bytes) : list nat := seq 1 (length b).    (* ASCII: one grapheme per byte *)
@@ -336,7 +338,7 @@ Proof.
 Qed.
 Print Assumptions limit_ignores_terminator_refuted.
 
-(* (b) under --trim the " [... N more matches]" count compares match starts in the UNTRIMMED line with a cut
+(* (b) (documentation reading, not C09) under --trim the " [... N more matches]" count compares match starts in the UNTRIMMED line with a cut
        in the TRIMMED line: "  foo xxxxxxxx\n", match (2,5), -M 2: the preview "fo" is followed by
        "1 more match" although no match starts in the hidden part (the count that the spec asks for: matches
        starting at or after the cut, in the coordinates of the shown line) *)
@@ -461,7 +463,7 @@ Example preview_prefix_example :      (* "héllo\n", 3 graphemes: cut 4, preview
   firstn (trim_line_terminator (LTByte 10%N) shown 0 4) shown = [104; 195; 169; 108]%N.
 Proof. vm_compute. repeat split; repeat constructor. Qed.
 
-(* (c) --vimgrep prints one line per match even when the match spans lines (per_match_one_line; issue 1866).
+(* (c) (documentation reading, not C09) --vimgrep prints one line per match even when the match spans lines (per_match_one_line; issue 1866).
        With a column limit that rule is lost when the first line of the match is too long: the `continue` after
        write_exceeded_line in sink_slow_multi_per_match also skips the `break`.  "aaaaaaaaaa\nb\n", match (0,12),
        -M 5: two records (two terminators) for one match; without the limit one record. *)
